@@ -293,9 +293,27 @@ def rbytes(rng, lo=0, hi=48):
 
 def mutate_file(rng, data):
     """returns (state name, content or None=absent)"""
-    st = rng.choice(["absent", "truncated", "samelen", "shorter", "longer", "longer_tail", "intact", "intact", "empty", "random"])
+    st = rng.choice(["absent", "truncated", "samelen", "shorter", "longer", "longer_tail", "intact", "intact", "empty", "random",
+                     "eol", "eol"])
     if st == "absent":
         return st, None
+    if st == "eol":
+        # differs from the template in line termination / white space only (an editor's save, a checkout with autocrlf): still "not the
+        # template", must be restored byte for byte
+        k = rng.randrange(7)
+        if k == 0:
+            return st, data + b"\n"
+        if k == 1 and data.endswith(b"\n"):
+            return st, data[:-1]
+        if k == 2:
+            return st, data.replace(b"\n", b"\r\n")
+        if k == 3:
+            return st, data + b"\r\n"
+        if k == 4:
+            return st, data.replace(b"\n", b" \n", 1)
+        if k == 5:
+            return st, b"\xef\xbb\xbf" + data
+        return st, data.rstrip(b"\n") + b"\n\n"
     if st == "truncated":
         return st, data[:rng.randrange(len(data))] if data else b""
     if st == "samelen":
